@@ -122,7 +122,7 @@ func InjectFault(t *rapid.T, doc0 *Doc) (*Doc, Fault, bool) {
 				add("omit-param-"+d.Kw, func() []int { d.Params = nil; return []int{d.ID} })
 			}
 		case "URL":
-			if parent == nil {
+			if parent == nil && len(d.Params) > 0 {
 				add("dup-URL-path", func() []int {
 					c := &Dir{ID: f.id(), Kw: "URL", Params: append([]string{}, d.Params...)}
 					g := &Dir{ID: f.id(), Kw: "DELETE"}
@@ -184,7 +184,7 @@ func InjectFault(t *rapid.T, doc0 *Doc) (*Doc, Fault, bool) {
 					parent.Children = append(parent.Children, c)
 					return []int{d.ID, c.ID}
 				})
-				if parent.Child("Protocol") == nil {
+				if parent.Child("Protocol") == nil && len(parent.Params) > 0 {
 					add("dup-method-path-bearing", func() []int {
 						c := &Dir{ID: f.id(), Kw: d.Kw, Params: []string{parent.Params[0]}}
 						c.Children = []*Dir{{ID: f.id(), Kw: "200", Schema: &Schema{Notation: "any", AsParam: true}}}
